@@ -141,7 +141,9 @@ def start_global_contexts(global_ctx_only: str | None = None) -> None:
             continue
         if global_ctx_only is not None and global_ctx_only != "*":
             if global_ctx_name != global_ctx_only and not global_ctx_name.startswith(global_ctx_only + "."):
-                continue
+                # others only need starting if they were reloaded too (eg, they import the reloaded module)
+                if global_ctx.auto_start:
+                    continue
         global_ctx.set_auto_start(True)
         start_list.append(global_ctx)
     for global_ctx in start_list:
